@@ -139,6 +139,15 @@ def case(draw):
             rf = b['rf']
             b = dict(b, rf=dict(rf, rules=[rule] + rf['rules']))
             probes = probes + [{'desc': 'ORDER LOOKUP ' + draw(st.sampled_from(UNIQ)), 'amount': amt}]
+    if draw(st.booleans()):
+        # one unmatched description spelled in two letter cases on ALTERNATING rows (plus an ordinary repeat): each spelling is its own description
+        lay = {'cols': ['date', 'description', 'amount'], 'template': None, 'datefmt': '%Y-%m-%d', 'sign': '', 'dialect': 'comma', 'header': True, 'decimal': '.', 'spell': 0,
+               'source': 'Repeats'}
+        descs = draw(st.sampled_from([['Zqx Corner Cafe', 'ZQX CORNER CAFE', 'Zqx Corner Cafe'], ['ZQX CORNER CAFE', 'zqx corner cafe', 'ZQX CORNER CAFE', 'zqx corner cafe'],
+                                      ['Zqx Corner Cafe', 'Zqx Corner Cafe', 'ZQX OTHER', 'zqx corner cafe', 'Zqx Corner Cafe']]))
+        rows = [{'kind': 'good', 'date': f'2024-04-1{i}', 'unpadded': False, 'cents': 450 + 125 * i, 'style': PLAIN_STYLE, 'desc': d, 'customs': {}, 'loc': '', 'skip': ''}
+                for i, d in enumerate(descs)]
+        b = dict(b, sources=list(b['sources']) + [{'layout': lay, 'rows': rows, 'state': 'ok'}])
     return {'b': b, 'probes': probes}
 
 
